@@ -160,7 +160,8 @@ func (e *HasAttributePredicate) AsFilter(w Writer) error {
 }
 
 func formatAttrName(name string) string {
-	isIdent := true
+	// the empty string is not an identifier, it must be quoted
+	isIdent := name != ""
 	for i, ch := range name {
 		// stolen from scanner.Scanner.isIdentRune
 		// (QF1001): applying De Morgan's law here just makes it more confusing, and
